@@ -54,9 +54,15 @@ const MOMENTS: &[i64] = &[-1, 0, 0, 1, 2, 4, 8, 15, 30, 60, 150];
 
 #[tokio::main(flavor = "multi_thread", worker_threads = 8)]
 async fn main() {
-    let args: Vec<String> = std::env::args().collect();
+    let mut args: Vec<String> = std::env::args().collect();
+    let mode = if args.get(1).map(|m| m.starts_with('c')).unwrap_or(false) { args.remove(1) } else { "c14".to_string() };
     let seed: u64 = args.get(1).and_then(|s| s.parse().ok()).unwrap_or(1);
     let n_sc: usize = args.get(2).and_then(|s| s.parse().ok()).unwrap_or(24);
+    match mode.as_str() {
+        "c15" => return c15_main(seed, n_sc).await,
+        "c17" => return c17_main(seed, n_sc).await,
+        _ => {}
+    }
     let t0 = Instant::now();
     let outs: Outs = Arc::new(Mutex::new(vec![]));
     let listener = tokio::net::TcpListener::bind("127.0.0.1:0").await.expect("bind output");
@@ -176,4 +182,305 @@ async fn finish(k: usize, seed: u64, kind: &str, moment: i64, leader: usize, tar
             "schedule_status": sched, "stray_status": stray, "own_schedule_done_before_stray": own_schedule_done_before_stray, "outcome_judged": judged,
             "outputs": got.iter().map(|(p, v, t)| json!({"path": p, "body": v, "t": t})).collect::<Vec<_>>(), "t_start": t_start, "t_end": t0.elapsed().as_secs_f64()})
     );
+}
+
+
+fn mix(k: usize, seed: u64) -> u64 {
+    let mut x = (k as u64).wrapping_add(seed.wrapping_mul(0xd1b54a32d192ed03)).wrapping_add(0x9e3779b97f4a7c15);
+    x = (x ^ (x >> 30)).wrapping_mul(0xbf58476d1ce4e5b9);
+    x = (x ^ (x >> 27)).wrapping_mul(0x94d049bb133111eb);
+    x ^ (x >> 31)
+}
+
+async fn output_receiver() -> (Url, Outs, Instant) {
+    let t0 = Instant::now();
+    let outs: Outs = Arc::new(Mutex::new(vec![]));
+    let listener = tokio::net::TcpListener::bind("127.0.0.1:0").await.expect("bind output");
+    let out_url = Url::parse(&format!("http://{}/output/", listener.local_addr().unwrap())).unwrap();
+    let app = Router::new().fallback(post(output)).with_state((outs.clone(), t0));
+    tokio::spawn(async move {
+        let _ = axum::serve(listener, app).await;
+    });
+    (out_url, outs, t0)
+}
+
+async fn start_server(opts: ServerOpts) -> Url {
+    let mut server = Server::new_with_opts("127.0.0.1:0".parse().unwrap(), opts);
+    let addr = server.bind_socket().await.expect("bind");
+    tokio::spawn(async move {
+        let _ = server.start().await;
+    });
+    Url::parse(&format!("http://{addr}")).unwrap()
+}
+
+/// C15 over HTTP: `Cancel::cancel()` (api.rs cancel_all / server.rs) on a server whose policies are in
+/// arbitrary states; every scheduled policy of that server with a destination gets exactly one
+/// notification and nothing after cancel() returned.
+async fn c15_main(seed: u64, n_sc: usize) {
+    let (out_url, outs, t0) = output_receiver().await;
+    let client = reqwest::Client::builder().timeout(Duration::from_secs(60)).build().unwrap();
+    let program = "pub fn main(a: u8, b: u8) -> u8 { a ^ b }";
+    for k in 0..n_sc {
+        let x = mix(k, seed);
+        let cancel = polytune_http_server::Cancel::new();
+        let a = start_server(ServerOpts { concurrency: 1 + (x as usize >> 3) % 2, tmp_dir: None, jwt_conf: None, cancel: Some(cancel.clone()) }).await;
+        let b = start_server(ServerOpts { concurrency: 2, tmp_dir: None, jwt_conf: None, cancel: None }).await;
+        tokio::time::sleep(Duration::from_millis(60)).await;
+        let parts = vec![a.clone(), b.clone()];
+        let m = 1 + (x as usize >> 8) % 3;
+        let delay_ms = if (x >> 40) & 1 == 0 { [0u64, 0, 1, 2, 4, 8, 15, 30][(x as usize >> 12) % 8] } else { (x >> 12) % 260 };
+        let mut ids = vec![];
+        let mut sched = vec![];
+        for j in 0..m {
+            let id = Uuid::from_u128(((seed as u128) << 64) | ((k as u128) << 8) | j as u128 | (0x15u128 << 120));
+            let leader = (x as usize >> (16 + j)) % 2;
+            let inputs = [(x >> (20 + 8 * j)) & 0xff, (x >> (28 + 8 * j)) & 0xff];
+            ids.push((id, leader, inputs));
+            for p in 0..2 {
+                let pol = policy(id, &parts, program, leader, p, inputs[p], &out_url);
+                let (client, url) = (client.clone(), parts[p].join("schedule").unwrap());
+                sched.push(tokio::spawn(async move {
+                    match client.post(url).json(&pol).send().await {
+                        Ok(r) => r.status().as_u16() as i64,
+                        Err(_) => -1,
+                    }
+                }));
+            }
+        }
+        // cancel once every schedule call has been answered (the policies are then in some state between
+        // Validated and finished), after an additional delay
+        // the schedule calls at the cancelled server are always answered first (a policy scheduled after the
+        // cancellation is outside the property); in odd scenarios the calls at the other server may still be
+        // pending
+        let mut sched_status = vec![];
+        let mut a_statuses = vec![];
+        let mut later = vec![];
+        for (i, h) in sched.into_iter().enumerate() {
+            if i % 2 == 0 || k % 2 == 0 {
+                let st = h.await.unwrap_or(-2);
+                sched_status.push(st);
+                if i % 2 == 0 {
+                    a_statuses.push(st);
+                }
+            } else {
+                later.push(h);
+            }
+        }
+        tokio::time::sleep(Duration::from_millis(delay_ms)).await;
+        let t_cancel_call = t0.elapsed().as_secs_f64();
+        let returned = tokio::time::timeout(Duration::from_secs(30), cancel.cancel()).await.is_ok();
+        let t_cancel_ret = t0.elapsed().as_secs_f64();
+        for h in later {
+            let _ = tokio::time::timeout(Duration::from_secs(5), h).await;
+        }
+        tokio::time::sleep(Duration::from_millis(400)).await;
+        let got = outs.lock().unwrap().clone();
+        let per_comp: Vec<Value> = ids.iter().enumerate().map(|(j, (id, leader, inputs))| {
+            let a_status = a_statuses.get(j).copied().unwrap_or(-9);
+            let mine: Vec<Value> = got.iter().filter(|(p, _, _)| p.contains(&id.to_string()) && p.contains("/p0/")).map(|(_, v, t)| json!({"type": v["type"], "t": t, "ok": v["type"] == "success" && v["details"]["NumUnsigned"][0].as_u64() == Some(inputs[0] ^ inputs[1])})).collect();
+            json!({"id": id.to_string(), "leader": leader, "schedule_status_at_cancelled_server": a_status, "notifications_at_cancelled_server": mine})
+        }).collect();
+        println!("{}", json!({"c15_scenario": k, "seed": seed, "computations": m, "delay_ms": delay_ms, "schedule_status": sched_status, "cancel_returned": returned, "t_cancel_call": t_cancel_call, "t_cancel_return": t_cancel_ret, "per_computation": per_comp}));
+    }
+    println!("{}", json!({"c15_done": n_sc, "wall_s": t0.elapsed().as_secs_f64()}));
+}
+
+#[derive(Clone)]
+struct Proxy {
+    target: Url,
+    client: reqwest::Client,
+    log: Arc<Mutex<Vec<(String, f64)>>>,
+    t0: Instant,
+    /// (path prefix, occurrence, status) answered with that status instead of being forwarded
+    fail: Arc<Mutex<Option<(String, usize, u16)>>>,
+    seen: Arc<Mutex<std::collections::HashMap<String, usize>>>,
+    /// computation id the failure was applied to
+    failed_comp: Arc<Mutex<Option<String>>>,
+    /// `run` requests are held until this many have arrived (0 = no barrier); (target, arrived)
+    barrier: Arc<Mutex<(usize, usize)>>,
+}
+
+async fn proxy_handler(State(p): State<Proxy>, uri: Uri, headers: axum::http::HeaderMap, body: Bytes) -> (axum::http::StatusCode, Bytes) {
+    let path = uri.path().to_string();
+    // the computation id is in the path (msg) or in the JSON body
+    let comp = serde_json::from_slice::<Value>(&body).ok().and_then(|v| v["computation_id"].as_str().map(|s| s.to_string())).unwrap_or_default();
+    p.log.lock().unwrap().push((format!("{path} {comp}"), p.t0.elapsed().as_secs_f64()));
+    let kind = path.trim_start_matches('/').split('/').next().unwrap_or("").to_string();
+    let occ = {
+        let mut s = p.seen.lock().unwrap();
+        let e = s.entry(kind.clone()).or_insert(0);
+        *e += 1;
+        *e - 1
+    };
+    let fail_now = { let f = p.fail.lock().unwrap(); match &*f { Some((k, o, st)) if *k == kind && *o == occ => Some(*st), _ => None } };
+    if let Some(st) = fail_now {
+        *p.failed_comp.lock().unwrap() = Some(comp.clone());
+        return (axum::http::StatusCode::from_u16(st).unwrap(), Bytes::from_static(b"injected failure"));
+    }
+    if kind == "run" {
+        let target = {
+            let mut b = p.barrier.lock().unwrap();
+            if b.0 > 0 { b.1 += 1; }
+            b.0
+        };
+        if target > 0 {
+            let until = Instant::now() + Duration::from_secs(20);
+            while Instant::now() < until && p.barrier.lock().unwrap().1 < target {
+                tokio::time::sleep(Duration::from_millis(5)).await;
+            }
+        }
+    }
+    let mut req = p.client.post(p.target.join(path.trim_start_matches('/')).unwrap()).body(body.to_vec());
+    if let Some(ct) = headers.get("content-type") {
+        req = req.header("content-type", ct.as_bytes());
+    }
+    match req.send().await {
+        Ok(r) => {
+            let st = axum::http::StatusCode::from_u16(r.status().as_u16()).unwrap_or(axum::http::StatusCode::BAD_GATEWAY);
+            (st, r.bytes().await.unwrap_or_default())
+        }
+        Err(_) => (axum::http::StatusCode::BAD_GATEWAY, Bytes::new()),
+    }
+}
+
+/// C17 over HTTP: the concurrency budget of a server (ServerOpts::concurrency, api.rs) observed from
+/// outside: a logging proxy in front of the follower sees when the leader sends `run` for a computation,
+/// the output receiver sees when the leader delivers its result; the intervals [run seen .. result seen]
+/// lie inside the intervals during which the leader holds a permit.
+async fn c17_main(seed: u64, n_sc: usize) {
+    let (out_url, outs, t0) = output_receiver().await;
+    let client = reqwest::Client::builder().timeout(Duration::from_secs(120)).build().unwrap();
+    let program = "const X: u8 = PARTY_0::X;\npub fn main(a: u8, b: u8) -> u8 { (a ^ b) & X }";
+    for k in 0..n_sc {
+        let x = mix(k, seed);
+        let conc = 1 + (x as usize >> 3) % 2;
+        let a = start_server(ServerOpts { concurrency: conc, tmp_dir: None, jwt_conf: None, cancel: None }).await;
+        let b = start_server(ServerOpts { concurrency: 4, tmp_dir: None, jwt_conf: None, cancel: None }).await;
+        // logging / failing proxy in front of b
+        let fail_kind = ["none", "run", "consts", "validate", "none"][(x as usize >> 6) % 5];
+        let fail_occ = (x as usize >> 10) % 3;
+        let fail_status = [400u16, 404, 500, 503][(x as usize >> 12) % 4];
+        let proxy = Proxy { target: b.clone(), client: client.clone(), log: Arc::new(Mutex::new(vec![])), t0, fail: Arc::new(Mutex::new(if fail_kind == "none" { None } else { Some((fail_kind.to_string(), fail_occ, fail_status)) })), seen: Default::default(), failed_comp: Default::default(), barrier: Default::default() };
+        let listener = tokio::net::TcpListener::bind("127.0.0.1:0").await.expect("bind proxy");
+        let purl = Url::parse(&format!("http://{}", listener.local_addr().unwrap())).unwrap();
+        let app = Router::new().fallback(post(proxy_handler)).with_state(proxy.clone());
+        tokio::spawn(async move {
+            let _ = axum::serve(listener, app).await;
+        });
+        tokio::time::sleep(Duration::from_millis(60)).await;
+        let parts = vec![a.clone(), purl.clone()];
+        let m = 3 + (x as usize >> 14) % 3;
+        let with_url = (x >> 20) & 1 == 0;
+        let mut ids = vec![];
+        let mut sched = vec![];
+        for j in 0..m {
+            let id = Uuid::from_u128(((seed as u128) << 64) | ((k as u128) << 8) | j as u128 | (0x17u128 << 120));
+            let inputs = [(x >> (22 + 6 * j)) & 0xff, (x >> (25 + 6 * j)) & 0xff];
+            ids.push((id, inputs));
+            for p in 0..2 {
+                let mut pol = policy(id, &parts, program, 0, p, inputs[p], &out_url);
+                if p == 0 {
+                    pol["constants"] = json!({"X": {"NumUnsigned": [0x7f, "U8"]}});
+                    if !with_url { pol["output"] = Value::Null; }
+                }
+                let target = if p == 0 { a.clone() } else { b.clone() };
+                let (client, url) = (client.clone(), target.join("schedule").unwrap());
+                sched.push(tokio::spawn(async move {
+                    match client.post(url).json(&pol).send().await {
+                        Ok(r) => r.status().as_u16() as i64,
+                        Err(_) => -1,
+                    }
+                }));
+            }
+        }
+        // a follower whose leader never validates (injected validate failure) answers its schedule call only
+        // when the HTTP client gives up: not waited for
+        let mut sched_status = vec![];
+        for h in sched {
+            sched_status.push(match tokio::time::timeout(Duration::from_secs(5), h).await {
+                Ok(r) => r.unwrap_or(-2),
+                Err(_) => -3,
+            });
+        }
+        // wait until every computation has produced its follower-side output (party 1 always has a
+        // destination) or an error, at most 60 s
+        let deadline = Instant::now() + Duration::from_secs(60);
+        let mut all_ended = true;
+        loop {
+            let got = outs.lock().unwrap().clone();
+            let failed = proxy.failed_comp.lock().unwrap().clone();
+            let done = ids.iter().filter(|(id, _)| Some(id.to_string()) == failed || got.iter().any(|(p, _, _)| p.contains(&id.to_string()) && p.contains("/p1/"))).count();
+            if done == m {
+                break;
+            }
+            if Instant::now() > deadline {
+                all_ended = false;
+                break;
+            }
+            tokio::time::sleep(Duration::from_millis(25)).await;
+        }
+        tokio::time::sleep(Duration::from_millis(300)).await;
+        // control: is the whole budget of the leader available again? `conc` more computations led by it, no
+        // failure injected; the proxy holds their run requests until `conc` of them have arrived, which needs
+        // `conc` permits at the same time
+        *proxy.fail.lock().unwrap() = None;
+        *proxy.barrier.lock().unwrap() = (conc, 0);
+        let mut cids = vec![];
+        let mut hs = vec![];
+        for c in 0..conc {
+            let cid = Uuid::from_u128(((seed as u128) << 64) | ((k as u128) << 8) | (0xf0 + c as u128) | (0x17u128 << 120));
+            cids.push(cid);
+            for p in 0..2 {
+                let mut pol = policy(cid, &parts, program, 0, p, 5 + p as u64, &out_url);
+                if p == 0 { pol["constants"] = json!({"X": {"NumUnsigned": [0xff, "U8"]}}); }
+                let target = if p == 0 { a.clone() } else { b.clone() };
+                let (client, url) = (client.clone(), target.join("schedule").unwrap());
+                hs.push(tokio::spawn(async move { client.post(url).json(&pol).send().await.map(|r| r.status().as_u16()).unwrap_or(0) }));
+            }
+        }
+        for h in hs { let _ = h.await; }
+        let cdeadline = Instant::now() + Duration::from_secs(40);
+        let mut control_result = json!(null);
+        while Instant::now() < cdeadline {
+            let got = outs.lock().unwrap().clone();
+            let okc = cids.iter().filter(|cid| got.iter().any(|(p, v, _)| p.contains(&cid.to_string()) && p.contains("/p0/") && v["type"] == "success")).count();
+            if okc == conc {
+                control_result = json!({"type": "success", "computations": conc});
+                break;
+            }
+            tokio::time::sleep(Duration::from_millis(25)).await;
+        }
+        let runs_held_together = proxy.barrier.lock().unwrap().1;
+        *proxy.barrier.lock().unwrap() = (0, 0);
+        // second control with the roles swapped (b leads, a follows through a direct URL): shows that a is
+        // responsive even if its own permit should be gone
+        let rid = Uuid::from_u128(((seed as u128) << 64) | ((k as u128) << 8) | 0xfe | (0x17u128 << 120));
+        let direct = vec![a.clone(), b.clone()];
+        let mut hs = vec![];
+        for p in 0..2 {
+            let pol = policy(rid, &direct, "pub fn main(a: u8, b: u8) -> u8 { a ^ b }", 1, p, 9 + p as u64, &out_url);
+            let (client, url) = (client.clone(), direct[p].join("schedule").unwrap());
+            hs.push(tokio::spawn(async move { client.post(url).json(&pol).send().await.map(|r| r.status().as_u16()).unwrap_or(0) }));
+        }
+        for h in hs { let _ = h.await; }
+        let rdeadline = Instant::now() + Duration::from_secs(40);
+        let mut reverse_result = json!(null);
+        while Instant::now() < rdeadline {
+            if let Some((_, v, t)) = outs.lock().unwrap().iter().find(|(p, _, _)| p.contains(&rid.to_string()) && p.contains("/p0/")) {
+                reverse_result = json!({"type": v["type"], "t": t});
+                break;
+            }
+            tokio::time::sleep(Duration::from_millis(25)).await;
+        }
+        let got = outs.lock().unwrap().clone();
+        let log = proxy.log.lock().unwrap().clone();
+        let per: Vec<Value> = ids.iter().map(|(id, inputs)| {
+            let run_t = log.iter().find(|(l, _)| l.starts_with("/run ") && l.contains(&id.to_string())).map(|(_, t)| *t);
+            let lead_out: Vec<Value> = got.iter().filter(|(p, _, _)| p.contains(&id.to_string()) && p.contains("/p0/")).map(|(_, v, t)| json!({"type": v["type"], "t": t, "ok": v["type"] == "success" && v["details"]["NumUnsigned"][0].as_u64() == Some((inputs[0] ^ inputs[1]) & 0x7f)})).collect();
+            let foll_out: Vec<Value> = got.iter().filter(|(p, _, _)| p.contains(&id.to_string()) && p.contains("/p1/")).map(|(_, v, t)| json!({"type": v["type"], "t": t})).collect();
+            json!({"id": id.to_string(), "run_seen_at_proxy": run_t, "leader_notifications": lead_out, "follower_notifications": foll_out})
+        }).collect();
+        println!("{}", json!({"c17_scenario": k, "seed": seed, "concurrency": conc, "computations": m, "leader_has_destination": with_url, "failed_request": if fail_kind == "none" { Value::Null } else { json!({"kind": fail_kind, "occurrence": fail_occ, "status": fail_status, "computation": proxy.failed_comp.lock().unwrap().clone()}) }, "all_ended_within_60s": all_ended, "control_runs_held_together_at_proxy": runs_held_together, "schedule_status": sched_status, "per_computation": per, "control_led_by_same_server": control_result, "control_led_by_the_other_server": reverse_result}));
+    }
+    println!("{}", json!({"c17_done": n_sc, "wall_s": t0.elapsed().as_secs_f64()}));
 }
